@@ -11,6 +11,7 @@ import (
 	_ "verifmc/checks/c07"
 	_ "verifmc/checks/c08"
 	_ "verifmc/checks/c09"
+	_ "verifmc/checks/c10val"
 	_ "verifmc/checks/c12"
 	_ "verifmc/checks/c15"
 	_ "verifmc/checks/c16"
